@@ -103,6 +103,8 @@ def gen_cases(rng, n, tier):
                 r['end'] = None
         if rng.random() < 0.6:
             vals = [rng.choice([None, 1]), rng.choice([1, 2])]
+            if rng.random() < 0.3:
+                vals = [-1, -2]        # different values that CPython hashes alike
             for r in rows:
                 r['dat'] = [rng.choice(vals), 0]
         out.append(dict(cfg=cfg, rows=rows, yield_per=rng.choice([None, None, 1, 2, 3]), pending=rng.choice([0, 0, 1, 2, 3])))
